@@ -208,6 +208,13 @@ class EinSum(Module):
             arg_complex = [np.iscomplexobj(s.state) for i, s in enumerate(self.sig_in) if i != ar]
             ind_out = self.indices_in[ar]
 
+            # Indices of this argument that are summed out in the response and occur in no other argument need to be
+            # broadcast back over their full range
+            ind_missing = "".join([c for c in ind_out if not any([c in ii for ii in ind_in])])
+            if len(ind_missing) > 0:
+                ind_in.append(ind_missing)
+                arg_in.append(np.ones([self.sig_in[ar].state.shape[ind_out.index(c)] for c in ind_missing]))
+
             op = ",".join(ind_in)+"->"+ind_out
             if not np.iscomplexobj(self.sig_in[ar].state) and np.any(arg_complex) and np.iscomplexobj(df_in):
                 da_i = np.zeros_like(self.sig_in[ar].state)+0j
